@@ -208,9 +208,15 @@ type Conc struct {
 	Pos      [6]int    // abstract argument position -> real position
 	Hi, Lo   Embedding
 	LE       bool
-	W        int
-	X32Bit   int
-	NSys     int
+	// HostOrder: the byte order is the one the package determined for itself when it was initialised (no override), and
+	// the record is laid out the way this host's kernel lays it out
+	HostOrder bool
+	// ArchVia: how the policy gets its architecture: "" = the exported variable (arch.X86_64, ...), "name" = what arch.GetInfo
+	// returns for the architecture's name, "default" = not set at all (Assemble resolves the host's; only when Arch is the host's)
+	ArchVia string
+	W       int
+	X32Bit  int
+	NSys    int
 }
 
 func (c *Conc) Describe() map[string]interface{} {
@@ -219,7 +225,7 @@ func (c *Conc) Describe() map[string]interface{} {
 		names = append(names, fmt.Sprintf("%s=%d", s.Name, s.Nr))
 	}
 	return map[string]interface{}{"arch": c.Arch.Name, "syscalls": names, "positions": c.Pos,
-		"hi_embedding": c.Hi.Name, "lo_embedding": c.Lo.Name, "little_endian": c.LE, "w": c.W}
+		"hi_embedding": c.Hi.Name, "lo_embedding": c.Lo.Name, "little_endian": c.LE, "host_order": c.HostOrder, "arch_via": c.ArchVia, "w": c.W}
 }
 
 func (c *Conc) Embed64(v int64) uint64 {
@@ -336,8 +342,24 @@ func (c *Conc) Build(p *Policy) seccomp.Policy {
 		}
 		pol.Syscalls = append(pol.Syscalls, sg)
 	}
-	seccomp.VerifSetArch(&pol, c.Arch)
+	c.SetArch(&pol)
 	return pol
+}
+
+// SetArch gives the policy its architecture the way c.ArchVia says.
+func (c *Conc) SetArch(pol *seccomp.Policy) {
+	switch c.ArchVia {
+	case "name":
+		if a, err := arch.GetInfo(c.Arch.Name); err == nil {
+			seccomp.VerifSetArch(pol, a)
+			return
+		}
+	case "default":
+		if a, err := arch.GetInfo(""); err == nil && a.Name == c.Arch.Name {
+			return
+		}
+	}
+	seccomp.VerifSetArch(pol, c.Arch)
 }
 
 // AuditArch ids the package knows (for "other" architecture words).
